@@ -32,7 +32,7 @@ DEFAULT_PROFILE = {
     "p_http": 0.9, "p_signature": 0.7, "p_routing": 0.25, "p_keyword_rpc": 0.08,
     "p_service_config": 0.8, "p_yaml": 0.3, "p_reserved_field": 0.08, "p_two_services": 0.25,
     "p_foreign_request": 0.1, "p_shuffle_numbers": 0.2, "p_additional_binding": 0.25,
-    "p_auto_populate": 0.0, "p_google_api_ns": 0.0, "sig_variants": False, "p_multi_var_path": 0.0, "mixin_variants": False, "p_add_iam_methods": 0.0, "p_equal_sort_keys": 0.0, "p_reserved_path_var": 0.0, "p_local_empty": 0.0, "p_same_method_two_services": 0.0, "p_required_enum": 0.0, "common_file_names": ["resources"],
+    "p_auto_populate": 0.0, "p_google_api_ns": 0.0, "sig_variants": False, "p_multi_var_path": 0.0, "mixin_variants": False, "p_add_iam_methods": 0.0, "p_equal_sort_keys": 0.0, "p_reserved_path_var": 0.0, "p_local_empty": 0.0, "p_same_method_two_services": 0.0, "p_required_enum": 0.0, "p_custom_http_pattern": 0.0, "common_file_names": ["resources"],
     "transports": ["grpc", "grpc+rest", "grpc+rest", "rest"],
     "p_numeric_enums": 0.3,
     "paged_variants": False,
@@ -439,6 +439,8 @@ def _gen_methods(cx, pkg, main, svc, noun, res, enums, msgs):
                 m["http"] = {"verb": verbh, "path": f"{pre}/{{name={wild}}}:{verb.lower()}"}
                 if body:
                     m["http"]["body"] = body
+                elif cx.chance("p_custom_http_pattern"):
+                    m["http"].update({"verb": "custom", "kind": rng.choice(["HEAD", "OPTIONS"])})
             if cx.chance("p_signature") and cx.p.get("sig_variants"):
                 m["signatures"] = _sig_variants(cx, pkg, fields)
             elif cx.chance("p_signature"):
